@@ -133,6 +133,10 @@ func (o *op) coq() string {
 		return vh.App("ORead", o.P.coq())
 	case "fd":
 		return vh.App("OFd", o.P.coq(), vh.Bool(o.Sync), vh.ListOf(o.Acts, func(a fdact) string { return a.coq() }))
+	case "createx":
+		return vh.App("OCreateX", o.P.coq())
+	case "mvx":
+		return vh.App("OMvX", o.P.coq(), o.Q.coq(), vh.Bool(o.Slash))
 	}
 	panic("op kind " + o.Kind)
 }
@@ -160,7 +164,34 @@ var configs = []config{
 
 const genConfigs = 4 // configs[:genConfigs] are used for generated histories
 
+// faultyDAG is the DAG service MFS gets: while [down] is set every Add/AddMany fails, as a
+// store that is unavailable or full does; reads keep working.
+type faultyDAG struct {
+	ipld.DAGService
+	down bool
+	hits int
+}
+
+var errStoreDown = errors.New("injected: the DAG service cannot store the node")
+
+func (d *faultyDAG) Add(ctx context.Context, n ipld.Node) error {
+	if d.down {
+		d.hits++
+		return errStoreDown
+	}
+	return d.DAGService.Add(ctx, n)
+}
+
+func (d *faultyDAG) AddMany(ctx context.Context, ns []ipld.Node) error {
+	if d.down {
+		d.hits++
+		return errStoreDown
+	}
+	return d.DAGService.AddMany(ctx, ns)
+}
+
 type fsys struct {
+	fault   *faultyDAG
 	ctx     context.Context
 	dserv   ipld.DAGService
 	rt      *mfs.Root
@@ -191,6 +222,8 @@ func newFS(c config) (*fsys, error) {
 		n := int64(c.Chunk)
 		opts = append(opts, mfs.WithChunker(func(r io.Reader) chunker.Splitter { return chunker.NewSizeSplitter(r, n) }))
 	}
+	f.fault = &faultyDAG{DAGService: f.dserv}
+	f.dserv = f.fault
 	rt, err := mfs.NewEmptyRoot(f.ctx, f.dserv, func(_ context.Context, c cid.Cid) error {
 		f.lastPub = c
 		f.npub++
@@ -337,6 +370,24 @@ func (f *fsys) exec(o *op, st *vh.Stats) (string, error) {
 			}
 		}
 		return f.errOut(cerr), nil
+	case "createx", "mvx":
+		// the same calls as create / mv while the DAG service fails every write
+		f.fault.down, f.fault.hits = true, 0
+		var err error
+		if o.Kind == "createx" {
+			nd := dag.NodeWithData(ft.FilePBData(nil, 0))
+			nd.SetCidBuilder(f.builder)
+			err = mfs.PutNode(f.rt, o.P.str(), nd)
+		} else {
+			dst := o.Q.str()
+			if o.Slash && len(o.Q) > 0 {
+				dst += "/"
+			}
+			err = mfs.Mv(f.rt, o.P.str(), dst)
+		}
+		f.fault.down = false
+		st.Count(fmt.Sprintf("store-fault-hit:%v", f.fault.hits > 0))
+		return f.errOut(err), nil
 	case "fd":
 		n, err := mfs.Lookup(f.rt, o.P.str())
 		if err != nil {
@@ -820,8 +871,11 @@ func (g *gen) next() *op {
 		o.Kind = "read"
 		o.P = g.anyPath(dirs, files, true, false)
 	}
+	if (o.Kind == "create" || o.Kind == "mv") && r.Intn(6) == 0 {
+		o.Kind += "x" // the same call while the store fails
+	}
 	o.Path = o.P.str()
-	if o.Kind == "mv" {
+	if o.Kind == "mv" || o.Kind == "mvx" {
 		o.Dst = o.Q.str()
 		if o.Slash && len(o.Q) > 0 {
 			o.Dst += "/"
@@ -954,6 +1008,12 @@ func corpus() [][]*op {
 	S := func(rel bool, n int64) fdact { return fdact{K: "seek", Rel: rel, N: n} }
 	FL := fdact{K: "flush"}
 	return [][]*op{
+		// store faults: PutNode / Mv while DAGService.Add fails must answer an error and change nothing
+		// (listing, later operations, flushed root); the third Mv is the witness of finding C19-5
+		{mk(path{a}, false), mustOp("create", path{f}), mustOp("createx", path{gg}), mustOp("createx", path{a, f}), mustOp("list", root), mustOp("list", path{a}),
+			func() *op { o := mv(path{f}, path{a, f}, false); o.Kind = "mvx"; return o }(), mustOp("list", root), mustOp("list", path{a}),
+			func() *op { o := mv(path{f}, path{a}, true); o.Kind = "mvx"; return o }(), mustOp("flush", root),
+			mustOp("create", path{gg}), func() *op { o := mv(path{f}, path{gg}, false); o.Kind = "mvx"; return o }(), mustOp("list", root), mustOp("flush", root)},
 		// descriptor-level histories: write, flush, truncate, close without a further write (the truncate
 		// must reach File.node, the parent and the root), flush-then-write, truncate larger / smaller /
 		// equal, several flushes, seeks, non-sync and sync close; reads and the flushed root after each
@@ -1007,7 +1067,7 @@ func corpus() [][]*op {
 
 func TestC19(t *testing.T) {
 	e := vh.Load(t)
-	st := vh.NewStats("operation sequences (corpus of 14 hand-written histories incl. the finding witnesses, then generated ones of " +
+	st := vh.NewStats("operation sequences (corpus of 15 hand-written histories incl. the finding witnesses, then generated ones of " +
 		"length 4..30 over the names a,b,x,y,f,g at depth <= 3, aimed at existing paths by a shadow tree; besides whole-file writes, descriptor sessions of 1..7 Write/WriteAt/Truncate/Seek/Flush calls on one write descriptor, each followed by reads and root flushes) run on a fresh MFS root in " +
 		"4 configurations (CIDv0, CIDv1+raw leaves, 120-byte HAMT threshold, 64-byte HAMT threshold + 4-byte chunks + CIDv1; the corpus also with MaxLinks=2); every history ends with " +
 		"FlushPath(/) whose DAG is read back with the UnixFS readers; non-trivial = at least 6 operations, at least one successful mv " +
